@@ -39,9 +39,10 @@ package bayes
 //
 // Infer: only accounts that equal the placeholder are replaced; every other field of every booking, and
 // a placeholder for which the model has no candidate, stays as it was; a replaced account is printable.
+//@ def acctText(a directives.Account) string := a.Range.Text[a.Range.Start:a.Range.End]
 //@ func (*Model).Infer
 //@   requires m != nil && t != nil && m.countByAccount != nil && (forall i int :: {t.Bookings[i].Range.Start} 0 <= i && i < len(t.Bookings) ==> prBooking(t.Bookings[i]))
-//@   modifies elems(t.Bookings)
+//@   modifies t.Bookings[*]
 //@   ensures [C15] @printable: forall i int :: {t.Bookings[i].Range.Start} 0 <= i && i < len(t.Bookings) ==> prBooking(t.Bookings[i])
 //@   ensures [C15] @only: forall i int :: {t.Bookings[i].Range.Start} 0 <= i && i < len(t.Bookings) ==>
 //@        t.Bookings[i].Range == old(t.Bookings[i].Range) && t.Bookings[i].Quantity == old(t.Bookings[i].Quantity) && t.Bookings[i].Commodity == old(t.Bookings[i].Commodity)
@@ -49,6 +50,10 @@ package bayes
 //@        && (old(t.Bookings[i].Debit.Range.Text[t.Bookings[i].Debit.Range.Start:t.Bookings[i].Debit.Range.End]) != m.account ==> t.Bookings[i].Debit == old(t.Bookings[i].Debit))
 //@   ensures [C15] @nonempty: forall i int :: {t.Bookings[i].Range.Start} 0 <= i && i < len(t.Bookings) ==>
 //@        (t.Bookings[i].Credit != old(t.Bookings[i].Credit) ==> t.Bookings[i].Credit.Range.End > 0) && (t.Bookings[i].Debit != old(t.Bookings[i].Debit) ==> t.Bookings[i].Debit.Range.End > 0)
+//@   ensures [C15] @differs: forall i int :: {t.Bookings[i].Range.Start} 0 <= i && i < len(t.Bookings) ==>
+//@        (t.Bookings[i].Credit != old(t.Bookings[i].Credit) || t.Bookings[i].Debit != old(t.Bookings[i].Debit)) ==> acctText(t.Bookings[i].Credit) != acctText(t.Bookings[i].Debit)
+//@   loop 1 invariant [C15] @differs: forall i int :: {t.Bookings[i].Range.Start} 0 <= i && i < $i ==>
+//@        (t.Bookings[i].Credit != old(t.Bookings[i].Credit) || t.Bookings[i].Debit != old(t.Bookings[i].Debit)) ==> acctText(t.Bookings[i].Credit) != acctText(t.Bookings[i].Debit)
 //@   loop 1 invariant 0 <= $i && $i <= len(t.Bookings) && len(t.Bookings) == old(len(t.Bookings)) && t.Bookings == old(t.Bookings)
 //@   loop 1 invariant forall i int :: {t.Bookings[i].Range.Start} 0 <= i && i < len(t.Bookings) ==> prBooking(t.Bookings[i])
 //@   loop 1 invariant forall i int :: {t.Bookings[i].Range.Start} $i <= i && i < len(t.Bookings) ==> t.Bookings[i] == old(t.Bookings[i])
